@@ -166,6 +166,8 @@ VIOLATIONS = (
     "missing_iface_field", "iface_field_type", "iface_arg_missing", "iface_arg_type", "extra_required_arg",
     "union_member_not_object", "query_not_object", "mutation_not_object",
     "name_type", "name_field", "name_arg", "name_enum_value", "name_directive", "name_directive_arg", "name_input_field",
+    # (appended) violations of the INTERFACE's own definition - they combine with the implementation violations of the object that implements it
+    "iface_dup_field", "iface_own_field_name", "iface_own_input_in_output", "iface_own_arg_output",
 )
 
 
@@ -181,7 +183,16 @@ GROUPS = {
     "dup_field": "A.fields", "input_in_output": "A.fields", "name_field": "A.fields", "name_type": "A",
     "dup_arg": "A.c.args", "name_arg": "A.c.args", "output_in_arg": "A.c.args",
     "name_directive": "directive", "name_directive_arg": "directive", "output_in_directive_arg": "directive",
+    "iface_dup_field": "Node.own", "iface_own_field_name": "Node.own", "iface_own_input_in_output": "Node.own", "iface_own_arg_output": "Node.own",
 }
+
+
+# pairs inside one group that do NOT cancel each other: several violations on the same implemented field / interface
+COMBINABLE = {frozenset(p) for p in (
+    ("iface_field_type", "iface_arg_type"), ("iface_field_type", "iface_arg_missing"), ("iface_field_type", "extra_required_arg"), ("iface_arg_type", "extra_required_arg"),
+    ("missing_iface_field", "iface_arg_type"), ("missing_iface_field", "iface_field_type"), ("missing_iface_field", "iface_arg_missing"), ("missing_iface_field", "extra_required_arg"),
+    ("dup_interface", "iface_field_type"), ("dup_interface", "missing_iface_field"),
+)}
 
 
 def build_schema_with(violations, depth, badname, order):
@@ -196,7 +207,16 @@ def build_schema_with(violations, depth, badname, order):
     inp = InputObjectType("In", inp_fields)
     enum = EnumType("Color", [] if "empty_enum" in v else [EnumValue("RED"), EnumValue(badname if "name_enum_value" in v else "BLUE")])
     iface_args = [Argument("p", Int)]
-    iface = InterfaceType("Node", [] if "empty_interface" in v else [Field("id", NonNullType(ID), args=iface_args), Field("n", Int)])
+    iface_fields = [Field("id", NonNullType(ID), args=iface_args), Field("n", Int)]
+    if "iface_dup_field" in v:
+        iface_fields.append(Field("n", Int))
+    if "iface_own_field_name" in v:
+        iface_fields.append(Field(badname, Int))
+    if "iface_own_input_in_output" in v:
+        iface_fields.append(Field("own_bad", wrap(inp, d)))
+    if "iface_own_arg_output" in v:
+        iface_fields.append(Field("own_arg", Int, args=[Argument("o", wrap(ObjectType("ArgObj", [Field("z", Int)]), d))]))
+    iface = InterfaceType("Node", [] if "empty_interface" in v else iface_fields)
     obj_args = [Argument("p", String if "iface_arg_type" in v else Int)]
     if "iface_arg_missing" in v:
         obj_args = []
@@ -209,6 +229,12 @@ def build_schema_with(violations, depth, badname, order):
         Argument(badname if "name_arg" in v else "i", wrap(inp, d)),
         Argument("e", wrap(iface if "output_in_arg" in v else enum, d)),
     ] + ([Argument("e", Int)] if "dup_arg" in v else [])))
+    if "iface_own_field_name" in v:
+        a_fields.append(Field(badname, Int))
+    if "iface_own_input_in_output" in v:
+        a_fields.append(Field("own_bad", wrap(inp, d)))
+    if "iface_own_arg_output" in v:
+        a_fields.append(Field("own_arg", Int, args=[Argument("o", Int)]))
     if "input_in_output" in v:
         a_fields.append(Field("bad", wrap(inp, d)))
     if "dup_field" in v:
@@ -230,6 +256,8 @@ def build_schema_with(violations, depth, badname, order):
     directive = Directive(badname if "name_directive" in v else "custom", ["FIELD"], args=[
         Argument(badname if "name_directive_arg" in v else "x", wrap(iface if "output_in_directive_arg" in v else Int, d))])
     qfields = [Field("a", a), Field("u", uni), Field("b", b), Field("node", iface)]
+    if tuple(order) == ORDERS[1]:
+        qfields.reverse()               # the interface is reached (and validated) BEFORE the object that implements it
     query = ObjectType("Query", qfields)
     mutation = ObjectType("Mutation", [Field("m", Int)])
     extra = [a, b, uni, inp, enum, iface]
@@ -252,6 +280,14 @@ def validate_verdict(schema):
         return len(e.errors)
 
 
+def validate_messages(schema):
+    try:
+        schema.validate()
+        return ()
+    except SchemaValidationError as e:
+        return tuple(sorted(set(str(x) for x in e.errors)))
+
+
 def _rules(v1: int, v2: int, depth: int, name: int, order: int) -> bool:
     """
     pre: 0 <= v1 < len(VIOLATIONS) and 0 <= v2 < len(VIOLATIONS)
@@ -261,10 +297,12 @@ def _rules(v1: int, v2: int, depth: int, name: int, order: int) -> bool:
     post: _
     """
     a, b = pick(v1, VIOLATIONS), pick(v2, VIOLATIONS)
-    uses_depth = any(x in ("input_in_output", "output_in_arg", "output_in_input_field", "output_in_directive_arg") for x in (a, b))
-    uses_name = any(x.startswith("name_") for x in (a, b))
-    if a != "none" and b != "none" and GROUPS[a] == GROUPS[b]:
+    uses_depth = any(x in ("input_in_output", "output_in_arg", "output_in_input_field", "output_in_directive_arg", "iface_own_input_in_output", "iface_own_arg_output") for x in (a, b))
+    uses_name = any(x.startswith("name_") or x == "iface_own_field_name" for x in (a, b))
+    if a != "none" and b != "none" and GROUPS[a] == GROUPS[b] and frozenset((a, b)) not in COMBINABLE:
         return result(True, False)
+    if "empty_interface" in (a, b) and "Node.own" in (GROUPS.get(a), GROUPS.get(b)):
+        return result(True, False)          # an interface without fields has no field of its own to be wrong
     if not uses_depth and depth != 0:
         return result(True, False)
     if not uses_name and name != 0:
@@ -280,11 +318,14 @@ def _rules(v1: int, v2: int, depth: int, name: int, order: int) -> bool:
             # rejected at construction with the library's own error: fine for a violation, never for a valid schema
             return result(len(injected) > 0, True)
         n = validate_verdict(schema)
-        base = validate_verdict(build_schema_with(injected, ds, ns, ORDERS[0]))
+        base_schema = build_schema_with(injected, ds, ns, ORDERS[0])
+        base = validate_verdict(base_schema)
         if not injected:
             ok = n == 0
         else:
             ok = n >= len(injected) and (n == 0) == (base == 0)
+            # the violations reported (as a set of messages) do not depend on the order in which the types were supplied / are reached
+            ok = ok and validate_messages(schema) == validate_messages(base_schema)
     return result(ok, True)
 
 
